@@ -372,6 +372,33 @@ def run(prop, tier_):
                     v.notes.append("sequential model vs library: %s [%s] model=%s library=%s" % (c["meta"]["call"], c["meta"]["backend"], exp, got))
             else:
                 stats["model_agrees"] += 1
+    # the wide / deep trees exceed the inode range of the trace specifications: judged directly on the real snapshots
+    big = [(c, r) for c, r in zip(cases, results) if c["meta"].get("kind") == "static-big"]
+    small = [(c, r) for c, r in zip(cases, results) if c["meta"].get("kind") != "static-big"]
+    for c, r in big:
+        if r.get("status") != "ok":
+            continue
+        o = lib_outcome(r["out"][0]["results"][0])
+        init = {(d["p"], d["n"], d["c"]) for d in r["init"]["dents"]}
+        fin = {(d["p"], d["n"], d["c"]) for d in r["final"]["dents"]}
+        # the named entry: walk the path from the root in the initial snapshot
+        cur = 2
+        for comp in c["meta"]["call"]["path"].split("/"):
+            cur = next((ch for (p_, n_, ch) in init if p_ == cur and n_ == comp), None)
+        sub, grew = {cur}, True
+        while grew:
+            grew = False
+            for (p_, n_, ch) in init:
+                if p_ in sub and ch not in sub:
+                    sub.add(ch)
+                    grew = True
+        want = {(p_, n_, ch) for (p_, n_, ch) in init if ch not in sub}
+        stats["big_cases"] += 1
+        if o[0] != "ok" or fin != want:
+            v.violation(dict(check="remove_all-big", tree=c["meta"]["tree"], backend=c["meta"]["backend"], api=c["meta"]["call"].get("api"), outcome=list(o)),
+                        "C13: remove_all(%r) on the %s tree [%s backend, %s API]: outcome %s; %d entries of the subtree are left, %d entries outside it are gone, %d appeared" % (
+                            c["meta"]["call"]["path"], c["meta"]["tree"], c["meta"]["backend"], c["meta"]["call"].get("api"), o, len(fin - want - (fin - init)), len(want - fin), len(fin - init)), c)
+    cases, results = [c for c, _ in small], [r for _, r in small]
     race.judge((prop, "C03") if prop == "C13" else (prop,), cases, results, verdicts, stats, samples)
     if prop == "C13":
         for sig, desc, rep in verdicts["C03"].violations:
@@ -404,7 +431,7 @@ def run(prop, tier_):
     cov = dict(partial_lookup_equivalence=getattr(static_cases, "partial", None) if prop == "C12" else None, mkdir2_action_conformance=conf, remove2_action_conformance=conf_rm, states=max(gen["distinct"], 1) + stats["trace_states"], transitions=max(gen["states"], 1) + stats["events"], traces_validated_against_impl=stats["traces"],
                samples=samples, evaluations=len(cases), distinct_nontrivial=len({json.dumps(c["meta"], sort_keys=True) for c in cases}),
                rule="static case = (path spelling generated by TLC, backend); concurrent case = (scenario of two calls, backend, schedule prefix with up to two preemptions at relevant-syscall granularity); all distinct by construction; non-trivial = all (every path has symlink/dot/missing components or a second process)",
-               exhaustive=not quick, static_generated=total, static_executed=len(scases), schedule_space=space, schedules_executed=len(ccases),
+               exhaustive=not quick, static_generated=total, static_executed=len(scases), schedule_space=space, schedules_executed=len(ccases), big_tree_cases=stats["big_cases"],
                two_process_model=getattr(conc_cases, "tlc_info", {}), design_invariant_violated=design["violated"], model_agrees=stats["model_agrees"], model_disagrees=stats["model_disagrees"],
                kernel_model_mismatches=stats["kmm"], kmm_samples=stats.get("kmm_samples", [])[:3], notes=v.notes[:8], build_s=round(build_s, 1))
     return rc, cov, time.time() - t0, v
